@@ -26,9 +26,12 @@ func TestC08_InFlightReads(t *testing.T) {
 	filters := c08Filters()[:2] // headers / blocks: one request per download
 	rapid.Check(t, func(rt *rapid.T) {
 		maxreads := rapid.IntRange(1, 5).Draw(rt, "maxreads")
-		waiters := rapid.IntRange(1, max(2, maxreads-1)).Draw(rt, "waiters")
-		if maxreads > 1 && waiters > maxreads-1 {
-			waiters = maxreads - 1
+		// (with max reads 1 a single late-comer: two of them could meet on the segment the first of
+		// them has just created, between its lookup and its lock, and share that download — the
+		// unmodified client allows that, see DESIGN §13)
+		waiters := 1
+		if maxreads > 2 {
+			waiters = rapid.IntRange(1, maxreads-1).Draw(rt, "waiters")
 		}
 		f := filters[rapid.IntRange(0, len(filters)-1).Draw(rt, "filter")]
 		limit := uint64(rapid.IntRange(1, 4).Draw(rt, "limit"))
